@@ -18,7 +18,18 @@ RULE = ('A case is a generated audit trail on the in-memory ZooKeeper: 2-7 '
         'snapshots per history directory (some rows duplicate live records), '
         'batch sizes 1-7, history max_count 1-4, child-listing order '
         'permuted. All nodes are written by the real producers (publish / '
-        'zkutils.put). One iteration of sproc.trace\'s cleanup loop '
+        'zkutils.put). A case is a short HISTORY of one archiver process: '
+        '1-3 passes of the cleanup loop; between passes the clock advances '
+        '(1 s - 1 h) and 0-4 generated world steps happen through the real '
+        'producers (new trace events, terminal events whose publish() '
+        'REWRITES existing /finished records, instances unscheduled, server '
+        'events); the oracle is evaluated after every pass against the '
+        'records as they are then (a finished record = name + current '
+        'content + current mtime; versions archived earlier stay owed). '
+        'Module-level containers of the modules under test are reset to '
+        'their import-time value at the start of every case and whenever '
+        'the process is restarted. The faults below are enumerated on the '
+        'LAST pass. One pass = one iteration of sproc.trace\'s cleanup loop: it '
         '(cleanup_trace, cleanup_finished, cleanup_trace_history, '
         'cleanup_finished_history, cleanup_server_trace, '
         'cleanup_server_trace_history; real sqlite3/zlib) is run once '
@@ -65,7 +76,7 @@ ASSUMPTIONS = [
     'when available, else under /tmp',
 ]
 TRUSTED = ['pbt/fakezk.py', 'pbt/vclock.py', 'pbt/archiver.py']
-BUDGET = {'quick': 1200, 'thorough': 24000}
+BUDGET = {'quick': 960, 'thorough': 24000}
 
 SECOND = 1000000
 DAY = 24 * 3600 * SECOND
@@ -162,6 +173,34 @@ def _history():
                                   'server': fam})
 
 
+@st.composite
+def _step_op(draw):
+    pick = draw(st.integers(0, 19))
+    inst = draw(st.integers(0, 6))
+    var = draw(st.integers(0, 8))
+    if pick < 9:
+        # a further terminal event: publish() rewrites /finished/<instance>
+        return {'op': 'event', 'i': inst, 'k': draw(st.sampled_from([5, 6, 7])),
+                'v': var, 'back': draw(st.sampled_from([0, 0, 2 * SECOND]))}
+    if pick < 14:
+        return {'op': 'event', 'i': inst, 'k': draw(st.integers(0, 9)),
+                'v': var,
+                'back': draw(st.sampled_from([0, SECOND, 4000 * SECOND]))}
+    if pick < 18:
+        return {'op': 'unschedule', 'i': inst}
+    return {'op': 'server_event', 'i': inst, 'k': draw(st.integers(0, 2)),
+            'v': var}
+
+
+def _steps():
+    """What happens between two passes of the same archiver process."""
+    group = st.fixed_dictionaries({
+        'advance': st.sampled_from([1, 29, 31, 60, 60, 299, 301, 3601]),
+        'ops': st.lists(_step_op(), min_size=0, max_size=4),
+    })
+    return st.lists(group, min_size=0, max_size=2)
+
+
 def strategy(tier):
     expiry = st.sampled_from([0, 1, 30, 300, 3600])
     params = st.fixed_dictionaries({
@@ -178,6 +217,7 @@ def strategy(tier):
         'instances': _instances(),
         'servers': _servers(),
         'history': _history(),
+        'steps': _steps(),
     })
 
 
@@ -185,26 +225,41 @@ def execute(case, stats):
     with archiver.TempDir() as tmp:
         world = archiver.World(case)
         world.populate()
+        world.begin()
         prof = world.profile()
 
-        # clean run
-        world.reset()
+        # earlier passes of the same archiver process, the world acting in
+        # between (undisturbed; judged after every pass)
+        steps = case.get('steps', [])
+        uploads = {fam: 0 for fam in archiver.FAMILY_ORDER}
+        prunes = 0
+        for group in steps:
+            outcome, _done = world.run()
+            assert outcome == 'completed'
+            world.check('clean', True)
+            prunes += _tally(world, world.oplog, uploads)
+            stats.count('earlier_passes')
+            before = (len(world.finished), len(world.events['trace']))
+            rewritten = _live_finished(world)
+            world.apply_steps(group)
+            stats.count('world_ops', len(group['ops']))
+            stats.count('finished_records_rewritten_between_passes',
+                        len(rewritten - _live_finished(world)))
+            stats.count('trace_events_published_between_passes',
+                        len(world.events['trace']) - before[1])
+        start = world.mark()
+
+        # last pass, undisturbed
         outcome, writes = world.run()
         assert outcome == 'completed'
         oplog = list(world.oplog)
         summary = world.check('clean', True)
-        uploads = {fam: 0 for fam in archiver.FAMILY_ORDER}
-        prunes = 0
-        for opname, path in oplog:
-            fam = world._family_of(path)  # pylint: disable=protected-access
-            if fam and opname == 'create':
-                uploads[fam] += 1
-            elif fam and opname == 'delete':
-                prunes += 1
+        prunes += _tally(world, oplog, uploads)
         if tmp.leftovers():
             raise AssertionError('clean run left scratch files behind')
 
         stats.count('clean_runs')
+        stats.count('passes:%d' % (len(steps) + 1))
         stats.count('writes', writes)
         stats.count('records_before', len(world.events['trace']) +
                     len(world.events['server']) + len(world.finished))
@@ -228,15 +283,16 @@ def execute(case, stats):
         if prunes:
             stats.count('cases_pruned')
 
-        # the archiver runs again a minute later: still nothing lost
+        # the same process runs again a minute later: still nothing lost
         checked = {world.fingerprint()}
         outcome, _done = world.run()
         assert outcome == 'completed'
         stats.count('recovery_runs')
         world.check('recovery', True)
 
-        # every write of the clean run x every kind of failure there, each
-        # followed by a clean re-run (the restarted archiver)
+        # every write of the last pass x every kind of failure there, each
+        # followed by a clean re-run (the restarted archiver, or the same
+        # process if the code under test coped with the failure)
         salt = len(case['instances']) % 4
         for point in range(writes):
             where = _kind(world, oplog[point])
@@ -244,7 +300,7 @@ def execute(case, stats):
             if oplog[point][0] == 'create' or point % 4 == salt:
                 kinds.append('expired')
             for kind in kinds:
-                world.reset()
+                world.restore(start)
                 outcome, done = world.run(fault_at=point, kind=kind)
                 if not world.fired:
                     raise AssertionError(
@@ -258,6 +314,8 @@ def execute(case, stats):
                 stats.count('fault_at:%s' % where)
                 if kind != 'stop':
                     stats.count('zk_fault_outcome:%s:%s' % (kind, outcome))
+                if outcome != 'completed':
+                    world.restart_process()
                 state = world.fingerprint()
                 if state in checked:
                     # e.g. the error propagated and left exactly the state of
@@ -278,7 +336,26 @@ def execute(case, stats):
         if nontrivial and (uploads['finished'] or uploads['server']) \
                 and prunes:
             stats.count('class:all-families-and-pruning')
+        if nontrivial and steps:
+            stats.count('class:multi-pass')
         return nontrivial
+
+
+def _live_finished(world):
+    return set((rec['name'], rec['data'], rec['mtime'])
+               for rec in world.finished
+               if world._fin_live(rec))  # pylint: disable=protected-access
+
+
+def _tally(world, oplog, uploads):
+    prunes = 0
+    for opname, path in oplog:
+        fam = world._family_of(path)  # pylint: disable=protected-access
+        if fam and opname == 'create':
+            uploads[fam] += 1
+        elif fam and opname == 'delete':
+            prunes += 1
+    return prunes
 
 
 def _kind(world, entry):
@@ -323,10 +400,33 @@ def fixed_cases():
                     {'name': 'node2.example.com',
                      'events': [{'age': 7 * SECOND, 'k': 0, 'v': 1}]}],
         'history': {'trace': hist, 'finished': hist, 'server': hist},
+        'steps': [],
     }
     single = dict(base)
     single['params'] = dict(base['params'], trace_batch=1, finished_batch=1,
                             trace_hist_max=1, finished_hist_max=1,
                             trace_expire=0, finished_expire=0)
     single['order_seed'] = 0
-    return [('aimed-mixed-batch5', base), ('aimed-batch1-max1', single)]
+    # three passes of one process: a partial batch of expired /finished
+    # records is left over, one of them is rewritten by a later terminal
+    # event (killed, then the node's finished report), another record expires
+    multi = dict(base)
+    multi['order_seed'] = 0
+    multi['params'] = dict(base['params'], finished_batch=2,
+                           finished_expire=30)
+    multi['instances'] = [
+        {'app': 'proid.web', 'id': ident, 'scheduled': False,
+         'events': [_evt(-200, kind=6, var=idx)],
+         'finished': {'dt_ms': dt_ms, 's': 1}}
+        for idx, (ident, dt_ms) in enumerate(
+            [(1, -9000), (2, -8000), (3, -7000), (4, 5000), (5, 200000)])]
+    multi['steps'] = [
+        {'advance': 60, 'ops': [
+            {'op': 'event', 'i': 2, 'k': 5, 'v': 0, 'back': 0},
+            {'op': 'event', 'i': 4, 'k': 2, 'v': 1, 'back': 0}]},
+        {'advance': 60, 'ops': [
+            {'op': 'unschedule', 'i': 0},
+            {'op': 'event', 'i': 0, 'k': 5, 'v': 2, 'back': 0}]},
+    ]
+    return [('aimed-mixed-batch5', base), ('aimed-batch1-max1', single),
+            ('aimed-three-passes-rewritten-finished', multi)]
